@@ -18,6 +18,7 @@ from __future__ import annotations
 
 import json
 import os
+import re
 import shutil
 import sys
 import time
@@ -34,7 +35,8 @@ DEFLIB = ['shared', 'static', 'both']
 CELLS = [(l, u, d) for l in LAYOUTS for u in UNITY for d in DEFLIB]
 
 PIPE_MECH = 'unescapable-pipe-in-build-line-path'
-FLATGEN_MECH = 'flat-layout-built-file-path-assumes-mirror'
+FLATGEN_MECH = 'flat-layout-wrong-path-for-built-file'
+UNITY_EXT_MECH = 'unity-extracted-objects-ignore-non-unity-sources'
 SCRATCH_ROOT = ''   # set in the parent before forking workers; removed by common at exit
 
 
@@ -90,9 +92,11 @@ class Out:
 
 
 # ------------------------------------------------------------------------------------------------ manifest checks
-def check_manifest(out: Out, bdir: str, rec: T.Optional[dict]) -> T.Optional[mn.Manifest]:
+def check_manifest(out: Out, bdir: str, rec: T.Optional[dict], cfg: dict) -> T.Optional[mn.Manifest]:
     """Structural checks that need no expectation. Returns the manifest when it parses."""
     has_pipe = False
+    flat = cfg.get('layout') == 'flat'
+    unity_on = cfg.get('unity') != 'off'
     if rec:
         for w in rec['written']:
             if any('|' in p for part in (w[0], w[1], w[3], w[4], w[5]) for p in part):
@@ -145,16 +149,28 @@ def check_manifest(out: Out, bdir: str, rec: T.Optional[dict]) -> T.Optional[mn.
     out.count('monitor:input-closed', n_in)
     out.count('inputs_on_disk', n_src)
     if missing:
-        # classifier: under --layout flat a built target's output that meson turned into a File with
-        # File.from_built_file(<target>.get_builddir()/get_subdir(), name) -- generator.process(<target>),
-        # a custom-target index in another custom target's command, vs_module_defs -- is named by its
-        # mirror-layout path, while the file is produced under meson-out/
-        flat_gen = [x for x in missing if ('meson-out/' + x[0].rsplit('/', 1)[-1]) in m.producer and
-                    not x[0].startswith('meson-out/') and x[2].startswith('CUSTOM_COMMAND')]
-        rest = [x for x in missing if x not in flat_gen]
+        # classifier 1: under --layout flat meson names some built files by a path other than the one they are
+        # produced at: File.from_built_file(<target>.get_builddir(), name) keeps the mirror-layout path
+        # (generator.process(<target>), custom-target index as command argument, preprocess depends:), or the
+        # meson-out/ prefix is applied twice (compiler.preprocess outputs used as sources)
+        def flat_twin(p: str) -> T.Optional[str]:
+            if p.startswith('meson-out/meson-out/'):
+                return p[len('meson-out/'):]
+            if not p.startswith('meson-out/') and not p.startswith('/') and not p.startswith('../'):
+                return 'meson-out/' + p.rsplit('/', 1)[-1]
+            return None
+        flat_gen = [x for x in missing if flat and flat_twin(x[0]) in m.producer]
+        # classifier 2: unity build; objects taken over from another target (extract_all_objects, the static
+        # half of both_libraries) are computed as <target>-unityN.c.o although the target's sources cannot be
+        # unity-compiled (assembly): no statement produces that object
+        unity_ext = [x for x in missing if x not in flat_gen and unity_on and
+                     re.search(r'-unity\d+\.[^/]*\.o$', x[0])]
+        rest = [x for x in missing if x not in flat_gen and x not in unity_ext]
         if flat_gen:
             out.violation(FLATGEN_MECH, {'missing': flat_gen[:8], 'n_missing': len(flat_gen),
-                                         'produced_as': ['meson-out/' + x[0].rsplit('/', 1)[-1] for x in flat_gen[:8]]})
+                                         'produced_as': [flat_twin(x[0]) for x in flat_gen[:8]]})
+        if unity_ext:
+            out.violation(UNITY_EXT_MECH, {'missing': unity_ext[:8], 'n_missing': len(unity_ext)})
         if rest:
             out.violation(PIPE_MECH if has_pipe else 'input-neither-exists-nor-produced',
                           {'missing': rest[:8], 'n_missing': len(rest)})
@@ -403,7 +419,7 @@ def _run_case(case: dict, out: Out, root: str) -> None:
         out.violation('traceback-during-successful-setup', {'tail': r.err[-800:]})
     if rec is None:
         out.count('inconclusive:no-monitor-record')
-    m = check_manifest(out, bdir, rec)
+    m = check_manifest(out, bdir, rec, cfg)
     if rec is not None:
         check_invariants(out, rec)
     if collision is not None:
@@ -545,7 +561,15 @@ def probe_flat_generator() -> T.Tuple[dict, dict]:
     return files, {'targets': [], 'tests': [], 'features': ['probe:flat-generator-on-built-target']}
 
 
+def probe_unity_asm() -> T.Tuple[dict, dict]:
+    """library() of an assembly source, --unity=on -Ddefault_library=both (known finding; always that cell)."""
+    files = {'meson.build': _HEAD + "l = library('sq', 'sq.S')\nexecutable('u', 'm.c', link_with: l)\n",
+             'm.c': _MAIN, 'sq.S': gen_c04.asm_source('sq_fn')}
+    return files, {'targets': [], 'tests': [], 'features': ['probe:unity-asm-both']}
+
+
 PROBES: T.Dict[str, T.Callable[[], T.Tuple[dict, dict]]] = {
+    'unity-asm': probe_unity_asm,
     'flat-generator': probe_flat_generator,
     'pipe': probe_pipe, 'rsp': probe_rsp, 'shlib-alias': probe_shlib_alias, 'private-dir': probe_private_dir,
     'newline': probe_newline, 'test-depends': probe_test_depends,
@@ -596,6 +620,8 @@ def plan(chk: common.Check) -> T.List[dict]:
         cfgs = [('mirror', 'off', 'shared')] if quick else [('mirror', 'off', 'shared'), ('flat', 'on', 'both')]
         for l, u, d in cfgs:
             rsps = [None]
+            if name == 'unity-asm':
+                u, d = 'on', 'both'
             if name == 'flat-generator':
                 l = 'flat'
             if name == 'rsp':
